@@ -79,6 +79,22 @@ def _g1(ctx: Context) -> None:
         a, b = yt[1][0][1]
         m = b[1][1] if b[0] == "tuple" else None
         okm = a == ("tuple", (const(hap.TLV_STATE), const(hap.M[1]))) and b[1][0] == const(hap.TLV_METHOD) and m is not None and m[0] == "ifexp" and m[1] == ("param", f.pos_params[0]) and m[2] == const(bytes([hap.METHOD_PAIR_SETUP_WITH_AUTH])) and m[3] == const(bytes([hap.METHOD_PAIR_SETUP]))
+        WA, PS = const(bytes([hap.METHOD_PAIR_SETUP_WITH_AUTH])), const(bytes([hap.METHOD_PAIR_SETUP]))
+        if not okm and a == ("tuple", (const(hap.TLV_STATE), const(hap.M[1]))) and b[1][0] == const(hap.TLV_METHOD) and m is not None and m[0] == "phi" and set(m[1]) == {WA, PS}:
+            # the method chosen by an if statement into a local: the store of WithAuth is reached only through the true outcome
+            # of a test of the with_auth parameter, the store of PairSetup only through its false outcome
+            tests = [n for n in cfg.nodes if n.kind == "test" and strip_sites(T.of(cfg, n, n.exprs[0])) == ("param", f.pos_params[0])]
+            t_edges = [e for n in tests for e in cfg.out_edges(n, ("T",))]
+            f_edges = [e for n in tests for e in cfg.out_edges(n, ("F",))]
+            stores = {WA: [], PS: []}
+            for n in cfg.nodes:
+                if n.kind == "stmt" and isinstance(n.ast, ast.Assign):
+                    v_ = strip_sites(T.of(cfg, n, n.ast.value))
+                    if v_ in stores:
+                        stores[v_].append(n)
+            okm = bool(tests) and bool(stores[WA]) and bool(stores[PS]) \
+                and all(cfg.find_path(cfg.entry.id, n.id, avoid_edges=t_edges) is None for n in stores[WA]) \
+                and all(cfg.find_path(cfg.entry.id, n.id, avoid_edges=f_edges) is None for n in stores[PS])
     ck.check("C03.G1", okm, "M1 = [(State, M1), (Method, PairSetupWithAuth if with_auth else PairSetup)]", f"{ctx.fkey(f)}:m1", f"part1: M1 is {show(yt, 160)}", ctx.loc(f, ys[0][1]))
 
 
